@@ -378,6 +378,13 @@ func negServe(w *tr.Writer, conn negLink, sc negConn, n int, opDone <-chan struc
 				out = "<failure xmlns='" + srv.NSSASL + "'><not-authorized/><text xml:lang='en'>bad password</text></failure>"
 			case "other":
 				out = "<proceed xmlns='" + srv.NSTLS + "'/>"
+			case "stanza":
+				// well-formed, known to the parser, but not an answer to <auth/>
+				out = "<message from='localhost' type='headline'><body>maintenance tonight</body></message>"
+			case "features":
+				out = negFeatures("notls", []string{"PLAIN", "X-OAUTH2"})
+			case "smnonza":
+				out = "<enabled xmlns='" + srv.NSSM + "' id='x' resume='true'/>"
 			case "garbage":
 				out = "<success xmlns='" + srv.NSSASL + "'"
 				conn.Write(out)
